@@ -385,6 +385,15 @@ func (vc *VC) addObl(kind, name string, st *State, goal string, p token.Pos, tag
 		// witnesses of a loop step: the positions just processed come first (range indices and their successors,
 		// which addObl put in as v, v+1), and only a few candidates are offered: every candidate is a copy of the body
 		var first, rest []string
+		// the position a range loop is at, written as its invariants write it (header value of the index + 1): with this
+		// witness the quantified parts of the goal are literally the assumed invariant
+		for _, li := range vc.loopList {
+			if li.rangeIdx != nil && li.hdrLocal != nil {
+				if hv, ok := li.hdrLocal[li.rangeIdx]; ok && hv.K == KInt {
+					first = append(first, Add(hv.S, "1"))
+				}
+			}
+		}
 		for _, a := range sortedAllocs(st.locals) {
 			if a.Comment == "rangeindex" {
 				if v := st.locals[a]; v.K == KInt {
